@@ -149,7 +149,7 @@ prop("C20", "proof",
       H("mlog_get_line", ML, "h_mlog_get_line", ["mlog_get_line"], replace_calls=["get_line:get_line_contract"], timeout=900, solvers=("z3", "cvc5", "cadical")),
      ] + [
       H("mlog_dump_line%03d" % k, ML, "h_mlog_dump", ["mlog_dump"], replace_calls=["get_line:get_line_contract_dump"], enforce=["mlog_dump"],
-        defs=["-DKFIX=%d" % k], unwind=258, timeout=900, solvers=("z3",), cover=False,
+        defs=["-DKFIX=%d" % k], unwind=258, timeout=900, solvers=("z3", "cadical"), cover=False,
         tiers=(("quick", "thorough") if k in _DUMP_QUICK else ("thorough",)), note="watched line index k = %d" % k)
       for k in range(256)
      ],
